@@ -89,4 +89,16 @@ func init() {
 		"[len(is) != 0 && last.(*Op)]  -> op.Op == vm.RETURN_VALUE",
 		"[len(is) == 0]  -> false",
 	}
+	// incomplete-input decision (lexer half): a parse error without a message of its own is reported as 'unexpected EOF while parsing' exactly when the input ran out (x.eof), otherwise as 'invalid syntax' — the REPL continues a statement on the former  []
+	pathSpec["parser|yyLex.ErrorReturn"] = []string{
+		"[!(x.error)]  -> nil",
+		"[x.error && x.errorString != \"\"] ExceptionNewf(py.SyntaxError, \"%s\", x.errorString) -> err!",
+		"[x.error && x.errorString == \"\" && !(x.eof)] x.errorString = \"invalid syntax\"; ExceptionNewf(py.SyntaxError, \"%s\", x.errorString) -> err!",
+		"[x.error && x.errorString == \"\" && x.eof] x.errorString = \"unexpected EOF while parsing\"; ExceptionNewf(py.SyntaxError, \"%s\", x.errorString) -> err!",
+	}
+	// MRO lookup: every call walks the current MRO of the type and returns the first dictionary hit; nothing is memoised across calls (a cache would need invalidation in every subclass)  []
+	pathSpec["py|Type.Lookup"] = []string{
+		"[mro != nil] LOOP(range mro){[!(has(base.Dict[name]))]   | [has(base.Dict[name])]  break} -> after-loop",
+		"[mro == nil]  -> nil",
+	}
 }
